@@ -17,6 +17,8 @@ source-side encapsulation of the router (router-encap: which signer serves each 
 header || extended header || payload as the receiver parses them, ITS-AID and length from the request, and at every
 send the signed message follows a Basic Header re-stamped NH=SECURED_PACKET in the block that signs, while an emission
 without a secured alternative never carries that re-stamped header in front of clear bytes).
+A ticket answered as verified by verify_sequence_of_certificates is the very value handed to add_authorization_ticket on
+the way (learns-ticket): otherwise the signer's following digest-only messages are not accepted.
 Does not decide acceptance "within two further exchanges" over histories of joins, real-time behaviour of the 1 s timer,
 anything cryptographic.
 """
@@ -967,6 +969,54 @@ def router_encap(ctx):
     ctx.floor("C05.router-encap", 20)
 
 
+def learns_ticket(ctx):
+    """A ticket that arrives inside a message and is answered as verified is the ticket that was put into the store: later
+    messages of the same signer carry only the digest, and are accepted only if the lookup finds it.  On every exit of
+    verify_sequence_of_certificates that returns a certificate not read from the store, add_authorization_ticket was called
+    on the way with the very value that is returned (same reaching definition, or the same expression after expansion)."""
+    P = ctx.prog
+    lib = P.cls("security.certificate_library.CertificateLibrary")
+    fi = lib.find_method("verify_sequence_of_certificates")
+    add = lib.find_method("add_authorization_ticket")
+    if fi is None or add is None:
+        raise AnalysisError("C05: CertificateLibrary.verify_sequence_of_certificates / add_authorization_ticket vanished")
+    fl = ctx.flows.get(fi)
+    n = 0
+    for k, s_, st in fl.exits:
+        if k != "return" or s_.value is None or (isinstance(s_.value, ast.Constant) and s_.value.value is None):
+            continue
+        v = fl.expand(s_.value, st)
+        if any(isinstance(x, ast.Attribute) and x.attr == "known_authorization_tickets" for x in ast.walk(v)) and \
+                isinstance(v, (ast.Subscript, ast.Call)):
+            continue                                    # answered from the store
+        if isinstance(s_.value, ast.Call) and any(t is fi for t in P.call_targets(fi, s_.value, count=False)):
+            continue                                    # answered by the function itself on a shorter chain (induction)
+        n += 1
+        ok, why = False, "add_authorization_ticket is not called on the way to this return"
+        for f in st.facts:
+            if f.kind != "call" or add.qual not in f.targets or not f.node.args:
+                continue
+            a = f.node.args[0]
+            sa = fl.state_at(f.node)
+            same_def = isinstance(a, ast.Name) and isinstance(s_.value, ast.Name) and a.id == s_.value.id and \
+                sa.defs.get(a.id) is not None and sa.defs.get(a.id) == st.defs.get(a.id)
+            if same_def or sem.same(fl.expand(a, sa), v):
+                ok = True
+                break
+            why = f"the ticket stored is `{sem.cx(fl.expand(a, sa))}`, the ticket answered is `{sem.cx(v)}`"
+        ctx.ob("C05.learns-ticket", fi.short(), f"return@{_ordinal(fi, s_)}", ok,
+               "the certificate answered as verified is the one handed to add_authorization_ticket" if ok else
+               f"{why}: the message is accepted now, but the signer's ticket is not learnt (or another object is), so its following "
+               "digest-only messages are rejected as 'signer certificate not found'", f"{fi.module.rel}:{s_.lineno}")
+    if n < 2:
+        raise AnalysisError(f"C05: only {n} certificate-returning exits in verify_sequence_of_certificates (confirmed: 2)")
+
+
+def _ordinal(fi, ret) -> int:
+    rs = sorted((x for x in ast.walk(fi.node) if isinstance(x, ast.Return)), key=lambda x: (x.lineno, x.col_offset))
+    return [id(x) for x in rs].index(id(ret))
+
+
 def run(ctx):
     ctx.explanation = (
         "Sibling / table / provenance rules between the three signers, the verifier and the router. The message dictionary "
@@ -984,4 +1034,5 @@ def run(ctx):
     verifier_vs_signers(ctx, emitted)
     inclusion_state(ctx)
     p2pcd(ctx)
+    learns_ticket(ctx)
     router_encap(ctx)
